@@ -110,19 +110,22 @@ for _p in list(THEOREMS):
 _ALL_MANIFEST = MANIFEST
 MANIFEST = {p: d for p, d in _ALL_MANIFEST.items() if THEOREMS.get(p)}
 
-VARIANTS = {0: "BoundedBlocking", 1: "BoundedDropping"}
-# the unbounded builds (512-byte initial node, 4 KiB maximum: growth, switches, shrink requests, over-max records) are run
-# with the property oracles only — the Lean backend model carries the bounded queue (the unbounded one is C02's subject)
-ORACLE_ONLY = {2: "UnboundedBlocking", 3: "UnboundedDropping"}
+# the unbounded builds (512-byte initial node, 4 KiB maximum: growth, switches, shrink requests, over-max records) are
+# compared line by line with the unbounded-queue machine of the Lean backend model (Backend/UQueue.lean, USched.lean, UOps.lean:
+# the chain of bounded nodes in sequentially consistent mode), like the bounded ones with the bounded machine
+VARIANTS = {0: "BoundedBlocking", 1: "BoundedDropping", 2: "UnboundedBlocking", 3: "UnboundedDropping"}
+UNBOUNDED = (2, 3)
+ORACLE_ONLY = {}
 
 
 def params_line(ex):
     b = ex.get("backend", {})
     q = ex.get("bounded", {})
-    return "params drain=%d invalidBits=%d refreshAfterSample=%d catchAll=%d batchPct=%d reportFlush=%d keepUnreported=%d flushInvalid=%d" % (
+    return "params drain=%d invalidBits=%d refreshAfterSample=%d catchAll=%d batchPct=%d reportFlush=%d keepUnreported=%d flushInvalid=%d follow=%d" % (
         1 if q.get("drainPublish", True) else 0, b.get("invalidBits", 32), 1 if b.get("refreshAfterSample", True) else 0,
         1 if b.get("catchAllFormat", True) else 0, q.get("defaultPercent", 5), 1 if b.get("reportBeforeFlushCleanup", True) else 0,
-        1 if b.get("cleanupKeepsUnreported", True) else 0, 0 if b.get("flushOnlyValidLoggers", False) else 1)
+        1 if b.get("cleanupKeepsUnreported", True) else 0, 0 if b.get("flushOnlyValidLoggers", False) else 1,
+        1 if b.get("unboundedReadFollowsEmptyBuffers", True) else 0)
 
 
 def run_script(hbin, name, lines, workdir):
